@@ -8,6 +8,7 @@
 #define _GNU_SOURCE
 #include "engutil.h"
 #include <stdlib.h>
+#include <sys/wait.h>
 #include <unistd.h>
 
 enum { HX_OK = 0, HX_OUTCOME_DIFFERS, HX_DIRTY_PADDING, HX_LEAK, HX_HEADER_SLOT_LEAK, HX_INVALID_FREE, HX_ILL_RETURNED, HX_ILL_TOUCHED, HX_ILL_SILENT, HX_NN };
@@ -357,6 +358,7 @@ static const char *classify(const child_res_t *cr, int ill, const char **prop) {
     if (sim_shared->operands_intact != 1) return hv_names[HX_ILL_TOUCHED];
     return "ok";
   }
+  if (cr->fate == FATE_EXIT_OTHER && WIFEXITED(cr->status) && WEXITSTATUS(cr->status) == 88) return "memcheck_error"; /* run under valgrind --error-exitcode=88 */
   if (cr->fate != FATE_EXIT0) {
     /* attribution rule (DESIGN 2.9): dies in world 0 -> C11 (fault free crash); dies only in a later world -> the fate depended on history/heap: C10 */
     static char b[64];
@@ -393,7 +395,18 @@ static int cmd_worker(int argc, char **argv) {
     sb_reset(&sb);
     child_res_t cr;
     if (illmode) { gen_ill(eng_run_seed(seed, "ill", idx), idx, &sb); eng_write_file(cur, sb.s); illarg_t a = { sb.s }; eng_fork_run(ill_child, &a, errpath, 120, &cr); }
-    else { gen_program(eng_run_seed(seed, "hist", idx), idx, tier, &sb); eng_write_file(cur, sb.s); runarg_t a = { sb.s }; eng_fork_run(child_run, &a, errpath, 300, &cr); }
+    else {
+      gen_program(eng_run_seed(seed, "hist", idx), idx, tier, &sb);
+      eng_write_file(cur, sb.s);
+      if (getenv("M4SIM_DUMP")) { /* only write the programs (used by the valgrind pass of the thorough tier) */
+        char fn[512];
+        snprintf(fn, sizeof fn, "%s/prog-%llu.prog", outdir, (unsigned long long)idx);
+        eng_write_file(fn, sb.s);
+        continue;
+      }
+      runarg_t a = { sb.s };
+      eng_fork_run(child_run, &a, errpath, 300, &cr);
+    }
     const char *prop;
     const char *cls = classify(&cr, illmode, &prop);
     char scen[64];
